@@ -8,6 +8,8 @@ mod harness;
 mod harness_auth;
 mod harness_cat;
 mod harness_stats;
+mod harness_wire;
+mod rawconn;
 mod harness_grp;
 mod harness_ret;
 mod minimize;
